@@ -148,7 +148,8 @@ func jobFlush(id string, maxChunks int, faults bool) *Job {
 			p, _ := e.Path.concrete()
 			switch e.Kind {
 			case "mkdir":
-				it.Assert(c.Bool(p == "/out/.thruflux_resumedata" && i == 0), "the metadata directory is created first")
+				it.Assert(c.Bool(strings.HasPrefix("/out/.thruflux_resumedata", p) && !sawRename), "only the metadata directory (and its parents) is created, before anything else")
+				_ = i
 			case "create", "write":
 				it.Assert(c.Bool(p == tmp), "new metadata is written to the temporary file only, never to the final path")
 				it.Assert(c.Bool(!sawRename), "nothing is written after the rename")
